@@ -338,6 +338,40 @@ func caseDecompress(r *vlib.Rand, pool []refec.Point, count func(string, string)
 			}
 		}
 	}
+	if r.Intn(3) == 0 {
+		// edge coordinates: y tiny or just below p (a weakly reduced limb representation of such a y may be y+p, whose
+		// low bit is the opposite parity), or x tiny
+		for tries := 0; tries < 200; tries++ {
+			if r.Intn(4) == 0 {
+				if q, ok := refec.LiftX(big.NewInt(int64(1 + r.Intn(2000)))); ok {
+					pt = q
+					break
+				}
+				continue
+			}
+			var y *big.Int
+			switch r.Intn(3) {
+			case 0:
+				y = big.NewInt(int64(1 + r.Intn(4000)))
+			case 1:
+				y = new(big.Int).SetUint64(r.U64() % (1<<32 + 977))
+			default:
+				y = new(big.Int).SetUint64(1<<32 + 977 - uint64(r.Intn(3)) + uint64(r.Intn(3)))
+			}
+			if y.Sign() == 0 {
+				continue
+			}
+			if x, ok := refec.FCbrt(refec.FSub(refec.FSqr(y), big.NewInt(7))); ok {
+				if r.Bool() {
+					y = refec.FNeg(y)
+				}
+				if q := refec.NewPoint(x, y); q.IsOnCurve() {
+					pt = q
+					break
+				}
+			}
+		}
+	}
 	odd := r.Bool()
 	exp, _ := refec.Decompress(pt.X, odd)
 	w := map[string]interface{}{"x": hexv(pt.X), "odd": odd}
